@@ -19,6 +19,12 @@ THEOREMS = [
     "GE.Esc.escBody_safe",
     "GE.Esc.escQuote_safe",
 ]
+THM_MIX = [
+    "GE.Mix.mixture_roundtrip",
+    "GE.Mix.static_roundtrip",
+    "GE.Mix.scanText_printText",
+    "GE.Mix.printed_not_bb",
+]
 WARN = 2
 TABLE = {k[:-1]: v for k, v in html.entities.html5.items() if k.endswith(";")}
 
@@ -77,6 +83,95 @@ def kinds_above_note(ws):
     return sorted({w[1] for w in ws if w[2] >= WARN})
 
 
+MIX_ATOMS = ["a", "b", " ", "{", "}", "&", "<", ">", "\"", "'", ";", "#", "&amp;", "&lt;", "&quot;", "&#123;", "&#x7b;", "&#125;", "&lt", "&;", "&#;", "&bogus;", "é", "\U0001F600",
+             "\n", "{ {", "} }", "&#123;&#123;", "&frac12;", "1", "x"]
+MIX_BINDINGS = ["a", "a.b", "a[0]", "f(a,b)", "a+1", "{a:1}.a", "\"}}\"+a", "a?\"{\":\"}\"", "[a,b][0]", "!a", "a.b.c", "\"{{\"+a", "x+\"s\"", "\"s\"+x", "{a:{b:1}}.a",
+                "a+\"\\\"}}\"", "{a}", "{...a,b}"]
+
+
+def mix_stream(chk, rng, quick):
+    """(1) the model of the value parser vs the real one on values whose bindings are well-formed and printed canonically;
+    (2) the model of the value printer, fed with the REAL parser's pieces, vs the real printer — on every value, also malformed ones"""
+    import re
+    # canonical bindings: those the real expression printer prints as they are written
+    canon = [b for b, a in zip(MIX_BINDINGS, core.run_harness([core.req("expr_str", b) for b in MIX_BINDINGS])) if core.unesc(a) == b]
+    chk.bump("corr:mixture:canonical-bindings", len(canon))
+    if len(canon) < 8:
+        chk.violation("correspondence", "the expression printer no longer prints the canonical bindings of the mixture stream as written", canonical=canon)
+    srcs, wellformed = [], []
+    n = 4000 if quick else 80000
+    for i in range(n):
+        parts = []
+        wf = i % 4 != 3
+        for _ in range(1 + rng.below(5)):
+            if rng.chance(1, 2):
+                txt = "".join(rng.choice(MIX_ATOMS) for _ in range(1 + rng.below(4)))
+                parts.append(("T", txt))
+            else:
+                b = rng.choice(canon) if canon else "a"
+                sp = rng.choice(["", " ", "\n "])
+                parts.append(("B", "{{" + sp + b + rng.choice(["", " "]) + "}}"))
+        # adjacent text parts are one text piece
+        merged = []
+        for kind, t in parts:
+            if kind == "T" and merged and merged[-1][0] == "T":
+                merged[-1] = ("T", merged[-1][1] + t)
+            else:
+                merged.append((kind, t))
+        parts = merged
+        if wf:
+            parts = [(k_, (t.replace("{{", "{&#123;") if k_ == "T" else t)) for k_, t in parts]
+            parts = [(k_, (re.sub(r"\{\{", "{&#123;", t) if k_ == "T" else t)) for k_, t in parts]
+        else:
+            parts.insert(rng.below(len(parts) + 1), ("X", rng.choice(["{{", "}}", "{{}}", "{{ }}", "{{a b}}", "{{a", "{{{a}}", "{{a}}}", "{{)}}", "{ {{a}}", "{{{{a}}}}", "{{\"}}", "{{a}}{{"])))
+        # a text piece ending in { directly before a binding would join its braces
+        out = []
+        for k, (kind, t) in enumerate(parts):
+            if wf and kind == "T" and t.endswith("{") and k + 1 < len(parts) and parts[k + 1][0] == "B":
+                t = t[:-1] + rng.choice(["&#123;", "&#x7B;", "{ "])
+            out.append(t)
+        srcs.append("".join(out))
+        wellformed.append(wf)
+    real = core.run_harness([core.req("mix_value", s_) for s_ in srcs])
+    if real and real[0] == "bad-op":
+        chk.notes.append("harness has no mix_value op: mixture correspondence skipped")
+        return
+    sreqs, sidx, preqs = [], [], []
+    for i, (s_, a) in enumerate(zip(srcs, real)):
+        f = a.split("\t")
+        preqs.append(core.req("mix_print", core.unesc(f[0])))
+        if wellformed[i]:
+            names = set(re.findall(r"&([A-Za-z][A-Za-z0-9]*);", s_))
+            sreqs.append(core.req("mix_scan", s_, *["%s=%s" % (n_, TABLE[n_]) for n_ in sorted(names) if n_ in TABLE]))
+            sidx.append(i)
+    pm = core.run_driver(preqs)
+    sm = core.run_driver(sreqs)
+    if not core.MODEL_OK:
+        return
+    nd = 0
+    for i, (a, m) in enumerate(zip(real, pm)):
+        f = a.split("\t")
+        chk.case(("mix-print", srcs[i]), nontrivial="\\u{1}" in f[0] or "{" in f[0])
+        if len(f) < 2 or f[1] != m:
+            nd += 1
+            if nd <= 4:
+                chk.violation("correspondence", f"value printer: model prints {core.unesc(m)[:120]!r}, implementation {core.unesc(f[1] if len(f) > 1 else '')[:120]!r}",
+                              stream="mix_print", source=srcs[i], pieces=core.unesc(f[0]), real=a, model=m)
+    chk.bump("corr:mix_print:cases", len(pm))
+    chk.bump("corr:mix_print:diffs", nd)
+    nd = 0
+    for i, m in zip(sidx, sm):
+        rp = core.unesc(real[i].split("\t")[0])
+        mp = "\x01".join(("B" + x[1:].strip(" \n\t\r") if x.startswith("B") else x) for x in core.unesc(m).split("\x01")) if m else ""
+        chk.case(("mix-scan", srcs[i]), nontrivial=True)
+        if rp != mp:
+            nd += 1
+            if nd <= 4:
+                chk.violation("correspondence", f"value parser: model reads {mp[:120]!r}, implementation {rp[:120]!r}", stream="mix_scan", source=srcs[i], real=rp, model=mp)
+    chk.bump("corr:mix_scan:cases", len(sm))
+    chk.bump("corr:mix_scan:diffs", nd)
+
+
 def run(chk):
     quick = chk.tier != "thorough"
     chk.rule = ("generated templates in varied concrete syntax, and mutated / ill-formed ones: s1 = print(parse(t)), s2 = print(parse(s1)); (a) s2 == s1; "
@@ -90,8 +185,10 @@ def run(chk):
                        "precedence levels are the parser's (parse_left_to_right! chain, re-extracted; parse_chain_matches_wLevel), so parenthesisation by ExpressionLevel is "
                        "sufficient for every nesting; (2) every string survives escape + entity decoding unchanged and the escaped text cannot end its context "
                        "(decode_escBody, decode_escQuote, *_safe). NOT proved: that the parser inverts the grammar (checked by the oracle: parser tree == intended tree, C03), "
-                       "that mixed values are split back into the same pieces, the {{ protection, the tag / attribute printer and scope-name mangling (oracle only)"]
-    chk.model_tie([("GE.Thm.C14", THEOREMS), ("GE.Thm.C14Expr", THM_EXPR)])
+                       "the tag / attribute printer and scope-name mangling (oracle only); (3) mixture_roundtrip: the value parser reads the printed form of ANY sequence "
+                       "of text pieces and bindings back as the same pieces (text containing {{, text ending in { before a binding, <, \", &, look-alike references), "
+                       "assuming only that the binding parser reads back each printed binding (POk: the part covered by (1) and the parser oracle)"]
+    chk.model_tie([("GE.Thm.C14", THEOREMS), ("GE.Thm.C14Expr", THM_EXPR), ("GE.Thm.C14Mix", THM_MIX)])
     rng = chk.rng.fork("c14")
     # ---- (model) escaping and entity decoding ---------------------------------------------------------
     alpha = ["<", ">", "&", "\"", "'", ";", "#", "x", "a", "l", "t", "m", "p", "q", "u", "o", "1", "2", "{", "}", " ", "é", "\U0001F600", "&amp;", "&lt;", "&quot;", "&#60;",
@@ -113,6 +210,8 @@ def run(chk):
         core.diff_streams(chk, "entity-decode", dreqs, real, core.run_driver(dreqs))
     else:
         chk.notes.append("harness has no static_value op: entity scanner correspondence skipped")
+    # ---- (model) text mixtures: the value parser and the value printer ------------------------------------------------------------
+    mix_stream(chk, rng.fork("mix"), quick)
     # ---- (model) the expression printer ----------------------------------------------------------------------
     trees = eg.enum_depth2()
     er = rng.fork("expr-str")
